@@ -27,6 +27,33 @@ type prov struct {
 	r    *recorder
 	left int
 	n    int
+	av   string // what an ammo VALUE is (core.Ammo is interface{}: every value is a valid ammo, see ammoValue)
+}
+
+var sameAmmo = &ammo{n: -1}
+
+// ammoValue: the value the mock provider hands out for its n-th item. "" = a fresh pointer per item (the items can be told
+// apart by the object); every other kind is a value the instances cannot tell apart — the untyped nil of the built-in `dummy`
+// provider (for guns that need no ammo), a typed nil pointer, zero values of basic types, an empty struct, one object for
+// all items. The engine must treat each of them as an item like any other: what says "no more ammo" is `ok == false`.
+func ammoValue(av string, n int) core.Ammo {
+	switch av {
+	case "nil":
+		return nil
+	case "nilptr":
+		return (*ammo)(nil)
+	case "zero":
+		return 0
+	case "estr":
+		return ""
+	case "false":
+		return false
+	case "unit":
+		return struct{}{}
+	case "same":
+		return sameAmmo
+	}
+	return &ammo{n: n}
 }
 
 func (p *prov) Run(ctx context.Context, _ core.ProviderDeps) error { <-ctx.Done(); return nil }
@@ -45,7 +72,7 @@ func (p *prov) Acquire() (core.Ammo, bool) {
 		p.left--
 	}
 	p.n++
-	a := &ammo{n: p.n}
+	a := ammoValue(p.av, p.n)
 	p.r.acquired(t, a)
 	p.r.logf("a%d", p.r.lid(t))
 	return a, true
@@ -113,9 +140,17 @@ func (p *wprov) Release(a core.Ammo) {
 	p.inner.Release(a)
 }
 
-// mkProvider: kind mock | json | jsonlimit | jsonpass | num ; n items (-1 = unbounded).
+// mkProvider: kind mock | json | jsonlimit | jsonpass | num | dummy ; n items (-1 = unbounded).
 func mkProvider(r *recorder, kind string, n int) core.Provider {
 	switch kind {
+	case "dummy":
+		// the built-in provider for guns that need no ammo: every Acquire answers (nil, true), it never runs out
+		if n >= 0 {
+			r.indistinct = true
+			return &prov{r: r, left: n, av: "nil"}
+		}
+		r.indistinct = true
+		return &wprov{r: r, inner: provider.Dummy{}, ids: map[any]int{}}
 	case "json", "jsonlimit", "jsonpass":
 		conf := provider.DefaultJSONProviderConfig()
 		conf.Decode.Queue.AmmoQueueSize = 4
